@@ -566,3 +566,31 @@ func VerifC20_AttestedBounded() {
 	}
 	vnd.Cover("C20.attested.checked")
 }
+
+// VerifC17_TwoAttests: two attestation runs overlapping (duties of the same
+// epoch naming a common validator) have no unsynchronised conflicting accesses,
+// and the common validator is signed for at most once (C01 under overlap).
+func VerifC17_TwoAttests() {
+	optSimpleCommittees, optNoMissing, optNoZeroSig, optValidData, optEpochPresent = true, true, true, true, true
+	d1 := ndDuty(1)
+	e := newAttEnv(d1, false)
+	// second duty: another slot of the same epoch, possibly the same validator
+	d2 := &ndDutyInfo{sizes: map[phase0.CommitteeIndex]uint64{0: 9}, slot: d1.slot}
+	d2.vals = []phase0.ValidatorIndex{phase0.ValidatorIndex(vnd.U64("second.validator"))}
+	d2.comms, d2.pos = []phase0.CommitteeIndex{0}, []uint64{1}
+	d2.duty, _ = attester.NewDuty(context.Background(), d2.slot, 64, d2.vals, d2.comms, d2.pos, d2.sizes)
+	go func() { _, _ = e.s.Attest(context.Background(), d1.duty) }()
+	go func() { _, _ = e.s.Attest(context.Background(), d2.duty) }()
+	left := vnd.Quiesce()
+	vnd.Assert(left == 0, "C17.attest.everything-returns")
+	signed := 0
+	for _, c := range e.signer.calls {
+		for _, a := range c.accounts {
+			if a.(*vstub.Account).VIndex == uint64(d1.vals[0]) {
+				signed++
+			}
+		}
+	}
+	vnd.Assert(signed <= 1, "C01.overlap.common-validator-signed-at-most-once")
+	vnd.Cover("C17.attest.overlap-explored")
+}
